@@ -88,6 +88,7 @@ class Heap:
         self.max_size = 0
 
     def alloc(self, size):
+        size = int(size)  # sizes may arrive as narrow numpy scalars (e.g. capacities given as an int8/uint8 array), which wrap in the arithmetic below
         for idx, loc in enumerate(self.released):
             if self.chunks[loc] == size:
                 del self.released[idx]
